@@ -123,6 +123,15 @@ impl FaultProfile {
     }
 }
 
+#[derive(Clone, Debug)]
+pub struct Rebind {
+    pub old: SocketAddr,
+    pub new: SocketAddr,
+    pub after: u64,
+    pub forward: u32,
+    pub forwarded: u32,
+}
+
 #[derive(Clone, Debug, PartialEq)]
 pub enum Fate {
     Deliver,
@@ -173,6 +182,9 @@ pub struct NetInner {
     kind_drops: HashMap<(SocketAddr, SocketAddr), u32>,
     /// destination connection id of the first long-header packet seen (the connection's original DCID)
     first_dcid: Option<Vec<u8>>,
+    /// NAT rebinding: once `old` has sent `after` datagrams, its next `forward` datagrams arrive from `new`;
+    /// everything else it sends, and everything sent to `new`, is dropped
+    pub rebind: Option<Rebind>,
     pub sent: Vec<WireEvent>,
     pub delivered: Vec<DeliveryEvent>,
     pub keep_log: bool,
@@ -284,6 +296,7 @@ impl SimNet {
             ordinals: HashMap::new(),
             kind_drops: HashMap::new(),
             first_dcid: None,
+            rebind: None,
             sent: vec![],
             delivered: vec![],
             keep_log: true,
@@ -455,6 +468,19 @@ impl SimNet {
                 }
                 if !p.jitter.is_zero() {
                     delay += Duration::from_micros(r_jit % (p.jitter.as_micros() as u64 + 1));
+                }
+            }
+        }
+        let mut src = src;
+        if let Some(rb) = g.rebind.as_mut() {
+            if dst == rb.new {
+                fate = Fate::Drop("rebind-return");
+            } else if src == rb.old && ord >= rb.after {
+                if rb.forwarded < rb.forward && fate == Fate::Deliver {
+                    rb.forwarded += 1;
+                    src = rb.new;
+                } else {
+                    fate = Fate::Drop("rebind");
                 }
             }
         }
